@@ -425,14 +425,59 @@ Definition put (st : list N * N) (piece : list N) : list N * N :=
   else if room <=? N.of_nat (length piece) then (out, 1)
   else (out ++ piece, room - N.of_nat (length piece)).
 Definition put_all (st : list N * N) (pieces : list (list N)) : list N * N := fold_left put pieces st.
-(* the arguments of a record: strings (payload bytes, a C string) and chars *)
-Inductive argv := AStr (raw : list N) | AChr (c : N).
+Fixpoint hex_aux (fuel : nat) (n : N) (acc : list N) : list N :=
+  match fuel with
+  | O => acc
+  | S f => let acc' := hex_digit (n mod 16) :: acc in
+           if n / 16 =? 0 then acc' else hex_aux f (n / 16) acc'
+  end.
+Definition hex (n : N) : list N := hex_aux 40 n [].               (* '%lx' *)
+Fixpoint oct_aux (fuel : nat) (n : N) (acc : list N) : list N :=
+  match fuel with
+  | O => acc
+  | S f => let acc' := (48 + n mod 8) :: acc in
+           if n / 8 =? 0 then acc' else oct_aux f (n / 8) acc'
+  end.
+Definition oct (n : N) : list N := oct_aux 40 n [].               (* '%llo' *)
+(* six decimals *)
+Definition d6 (n : N) : list N :=
+  [48 + n / 100000 mod 10; 48 + n / 10000 mod 10; 48 + n / 1000 mod 10; 48 + n / 100 mod 10; 48 + n / 10 mod 10; 48 + n mod 10].
+(* '%lld' of the 64-bit pattern v *)
+Definition sdec (v : N) : list N := if v <? 9223372036854775808 then dec v else 45 :: dec (W64 - v).
+(* the arguments of a record: strings (payload bytes, a C string), chars, pointers (with the name of the symbol
+   at that address, if any: task_find_sym_addr), 64-bit integers in the formats u, d (auto), i, x, o, structs
+   passed by value (type name from the argument spec, size) and doubles of the form k/64 (sign, k) *)
+Inductive argv := AStr (raw : list N) | AChr (c : N) | APtr (sym : option name) (v : N) | AUint (v : N)
+  | AStruct (tn : option name) (size : N) | AFlt (neg : bool) (k : N)
+  | AAuto (v : N) | ASint (v : N) | AHex (v : N) | AOct (v : N).
+Definition lambda_name : name := [60; 108; 97; 109; 98; 100; 97].        (* <lambda *)
+Definition struct_tail (size : N) : list N := if size =? 0 then [123; 125] else [123; 46; 46; 46; 125].
 Definition arg_pieces (a : argv) : list (list N) :=
   match a with
   | AStr raw => if is_null_str raw then [[78; 85; 76; 76]]
                 else [92; 34] :: map json_escape_char (cstr raw) ++ [[92; 34]]
   | AChr c => [39] :: json_escape_char c :: [[39]]
+  | APtr (Some nm) _ => [38] :: map json_escape_char (cstr nm)       (* '&' + the escaped name (fix 767f11d) *)
+  | APtr None v => if v =? 0 then [[48]] else [[48; 120] ++ hex v]     (* '0' / '%p' *)
+  | AUint v => if 100000 <? v then [[48; 120] ++ hex v] else [dec v]  (* '%#llx' above 100000, else '%#llu' *)
+  | AStruct tn size =>                        (* the escaped type name (not gcc's '<lambda'), then '{...}' or '{}' *)
+      match tn with
+      | Some nm => if name_eqb (cstr nm) lambda_name then [] else map json_escape_char (cstr nm)
+      | None => []
+      end ++ [struct_tail size]
+  | AFlt neg k => [(if neg then [45] else []) ++ dec (k / 64) ++ 46 :: d6 (k mod 64 * 15625)]       (* '%#f' *)
+  | AAuto v =>                      (* within +-100000: '%lld'; 0xffff0001..0xffffffff: '%d'; else '%#llx' *)
+      if (v <=? 100000) || (W64 - 100000 <=? v) then [sdec v]
+      else if (4294901760 <? v) && (v <=? 4294967295) then [45 :: dec (4294967296 - v)]
+      else [[48; 120] ++ hex v]
+  | ASint v => [sdec v]
+  | AHex v => if v =? 0 then [[48]] else [[48; 120] ++ hex v]         (* '%#llx' *)
+  | AOct v => if v =? 0 then [[48]] else [48 :: oct v]                (* '%#llo' *)
   end.
+(* the code as found printed the type name of a struct raw, in one piece *)
+Definition struct_text_legacy (nm : name) (size : N) : list N := nm ++ struct_tail size.
+(* the code as found printed the symbol name of a pointer raw: '&' + name in one piece *)
+Definition ptr_text_legacy (nm : name) : list N := 38 :: nm.
 (* the argument loop of get_argspec_string: ', ' between arguments, `if (len <= 2) break` after each *)
 Fixpoint args_loop (first : bool) (args : list argv) (st : list N * N) : list N * N :=
   match args with
@@ -737,6 +782,58 @@ Definition k_stream (k : case) : stream :=
                 let x : name := nth (N.to_nat i) (k_syms k) (@nil N) in
                 (tid, if b then Ent x t else Ext x t)) (k_recs k).
 Definition k_tids (k : case) : list N := map fst (k_tasks k).
+(* scheduler events are calls of pseudo functions: the graphs tell 'linux:schedule (pre-empted)' from
+   'linux:schedule' (utils/graph.c add_graph_event); dump --chrome names both 'linux:schedule' (the sched-in event
+   that closes them cannot know) *)
+Definition s_sched : name := [108; 105; 110; 117; 120; 58; 115; 99; 104; 101; 100; 117; 108; 101].
+Definition s_sched_pre : name := s_sched ++ [32; 40; 112; 114; 101; 45; 101; 109; 112; 116; 101; 100; 41].
+Definition chrome_name (x : name) : name := if name_eqb x s_sched_pre then s_sched else x.
+Definition chrome_stream (s : stream) : stream :=
+  map (fun r => (fst r, match snd r with Ent x t => Ent (chrome_name x) t | Ext x t => Ext (chrome_name x) t end)) s.
+Definition k_cstream (k : case) : stream := chrome_stream (k_stream k).
+
+(* the code as found (before feda1db): `graph` took the end time of the calls still open at the end of the data from
+   task->rstack->time; for a task whose last record was a scheduler (perf) event that pointer is the one static record
+   of get_perf_record(), which holds the LAST scheduler event of any task by then *)
+Definition is_sched (x : name) : bool := name_eqb x s_sched || name_eqb x s_sched_pre.
+Definition ev_name (e : ev) : name := match e with Ent x _ | Ext x _ => x end.
+Fixpoint last_sched_time (s : stream) (acc : N) : N :=
+  match s with
+  | [] => acc
+  | (_, e) :: r => last_sched_time r (if is_sched (ev_name e) then ev_time e else acc)
+  end.
+Fixpoint last_is_sched (tid : N) (s : stream) (acc : bool) : bool :=
+  match s with
+  | [] => acc
+  | (k, e) :: r => last_is_sched tid r (if k =? tid then is_sched (ev_name e) else acc)
+  end.
+Definition legacy_last (s : stream) (tid own : N) : N :=
+  if last_is_sched tid s false then last_sched_time s own else own.
+Definition patch_last (s : stream) (m : mstate) : mstate :=
+  {| m_g := m_g m;
+     m_t := map (fun p => (fst p, {| ts_path := ts_path (snd p); ts_stack := ts_stack (snd p);
+                                     ts_last := legacy_last s (fst p) (ts_last (snd p)) |})) (m_t m) |}.
+(* the code as found (before bc8d6cc): the loop of do_dump_replay closing the open calls ended an open linux:schedule
+   as a function EXIT at the 'address' EVENT_ID_PERF_SCHED_OUT (200002 = 0x30d42) / ..._PREEMPT (200007 = 0x30d47),
+   which no symbol covers: dump --chrome named the E event after the number *)
+Definition legacy_close_name (x : name) : name :=
+  if name_eqb x s_sched then [60; 51; 48; 100; 52; 50; 62]                 (* <30d42> *)
+  else if name_eqb x s_sched_pre then [60; 51; 48; 100; 52; 55; 62]        (* <30d47> *)
+  else x.
+Fixpoint chrome_close_legacy (tasks : list (N * N)) (tid last : N) (st : list frame) : list cev :=
+  match st with
+  | [] => []
+  | f :: rest => if last <? f_start f then chrome_close_legacy tasks tid last rest
+                 else mk_cev tasks tid false (legacy_close_name (f_name f)) last :: chrome_close_legacy tasks tid last rest
+  end.
+(* [s]: the records with the graph names ('linux:schedule (pre-empted)' told apart) *)
+Definition chrome_events_legacy (tasks : list (N * N)) (s : stream) : list cev :=
+  let m := fold_left (step 0) s (m_init []) in
+  map (chrome_of_record tasks) (chrome_stream s)
+  ++ flat_map (fun tp => let ts := t_get (fst tp) (m_t m) in
+                         chrome_close_legacy tasks (fst tp) (ts_last ts) (ts_stack ts)) tasks.
+Definition graph_build_legacy (sample : N) (rootname : name) (tids : list N) (s : stream) : node :=
+  g_root (m_g (close_tasks sample tids (patch_last s (fold_left (step sample) s (m_init rootname))))).
 
 Definition grow_eqb (a b : grow) : bool :=
   let '(d, x, c, t) := a in let '(d', x', c', t') := b in
@@ -779,7 +876,7 @@ Definition chrome_args (k : case) : list (option (list N)) :=
          let '((_, b, _, _), a) := ra in option_map (fun l => unescape (args_text b l)) a) (combine (k_recs k) (k_args k))
   ++ repeat None (length (k_chrome k) - length (k_recs k)).
 Definition agree_chrome (k : case) : bool :=
-  cevs_eqb (chrome_events (k_tasks k) (k_stream k)) (k_chrome k)
+  cevs_eqb (chrome_events (k_tasks k) (k_cstream k)) (k_chrome k)
   && opts_eqb (chrome_args k) (k_chrome_args k).
 
 (* the property, judged on what the implementation printed (reference aggregation only) *)
@@ -788,7 +885,7 @@ Definition okc_flame0 (k : case) : bool := ok_flame 0 (k_tids k) (k_stream k) (k
 Definition okc_flameS (k : case) : bool := ok_flame (k_sample k) (k_tids k) (k_stream k) (k_flameS k).
 Definition okc_dot (k : case) : bool := ok_dot (k_root k) (k_stream k) (k_dot k).
 Definition okc_mermaid (k : case) : bool := ok_mermaid (k_root k) (k_stream k) (k_mermaid k).
-Definition okc_chrome (k : case) : bool := k_json_ok k && ok_chrome (k_tasks k) (k_stream k) (k_chrome k).
+Definition okc_chrome (k : case) : bool := k_json_ok k && ok_chrome (k_tasks k) (k_cstream k) (k_chrome k).
 Definition wf_case (k : case) : bool := wf_stream (k_stream k).
 Definition fits_flame0 (k : case) : bool := flame_all_fit 0 (k_tids k) (k_stream k).
 Definition fits_flameS (k : case) : bool := flame_all_fit (k_sample k) (k_tids k) (k_stream k).
